@@ -130,7 +130,9 @@ impl Write for DestState {
                 return Err(Error::other("injected write failure"));
             }
             Fault::PartialThenError => {
-                let k = self.rng.usize_below(buf.len());
+                // writes of at most 64 bytes (a directory slot is 12) are atomic, as in Mode::ShortLarge:
+                // a slot torn by the destination is a boundary the writer does not control
+                let k = if buf.len() <= 64 { 0 } else { self.rng.usize_below(buf.len()) };
                 let at = self.pos;
                 self.store(&buf[..k]);
                 self.log.push(Call::FailedWrite { at, len: buf.len() });
